@@ -144,6 +144,8 @@ func runListener(sc lnScen, idx int, seed int64) (*lnTrace, error) {
 			addr := sconn.RemoteAddr().String()
 			vh.RegisterRec(addr, rec)
 			defer vh.UnregisterRec(addr)
+			vh.RegisterRec(sconn.LocalAddr().String()+"|"+addr, rec)
+			defer vh.UnregisterRec(sconn.LocalAddr().String() + "|" + addr)
 			stream := rec.Stream[:slen]
 			ci := &connInfo{rec: rec, conn: &closeObs{Conn: sconn, rec: rec}, kind: kind, slen: slen}
 			ci.client = func() {
